@@ -54,8 +54,8 @@ EXTENDS Integers, Sequences, FiniteSets, TLC
 
 VARIABLES st,           \* "idle" | "running" | "returned"
           cfg,          \* configuration of the running call
-          evalOf,       \* set of [p, y, g]: latest evaluation per point (at most one per p)
-          consAt,       \* set of [p, res]: latest constraint answer per point
+          evalOf,       \* point id -> latest evaluation [y, g] (a sequence indexed by the point id, padded with NoEval)
+          consAt,       \* point id -> latest constraint answer (sequence; 0 never asked, 1 satisfied, 2 violated)
           nEvals, nHooks,
           hookStopped,
           ret           \* the return record (meaningful when st = "returned")
@@ -63,11 +63,16 @@ VARIABLES st,           \* "idle" | "running" | "returned"
 svars == <<st, cfg, evalOf, consAt, nEvals, nHooks, hookStopped, ret>>
 
 None == 0                \* identity "absent"
+NoEval == [y |-> -1, g |-> -1]      \* the point was never evaluated
+(* sequences as maps from positive ids (TLC copies them at Java speed; sets of records were 3x slower) *)
+Get(f, p, dflt) == IF p >= 1 /\ p <= Len(f) THEN f[p] ELSE dflt
+Put(f, p, v, dflt) == IF p <= Len(f) THEN [f EXCEPT ![p] = v]
+                      ELSE f \o [i \in 1..(p - Len(f)) |-> IF i = p - Len(f) THEN v ELSE dflt]
 NoCfg == [algo |-> "none", maxit |-> -1, hasHook |-> FALSE, hasCons |-> FALSE, sc |-> FALSE,
           hookKind |-> "gy", iterBy |-> "eval", fixed |-> FALSE]
 NoRet == [p |-> None, err |-> TRUE, stopOK |-> FALSE, consOK |-> FALSE, nearMin |-> FALSE, startOK |-> FALSE]
 
-SkInit == /\ st = "idle" /\ cfg = NoCfg /\ evalOf = {} /\ consAt = {} /\ nEvals = 0 /\ nHooks = 0
+SkInit == /\ st = "idle" /\ cfg = NoCfg /\ evalOf = <<>> /\ consAt = <<>> /\ nEvals = 0 /\ nHooks = 0
           /\ hookStopped = FALSE /\ ret = NoRet
 
 (* ----------------------------- guards --------------------------------- *)
@@ -76,8 +81,8 @@ Live   == st = "running" /\ ~hookStopped                                   \* (S
 ConstraintG == Live /\ cfg.hasCons
 EvalG  == Live
 HookFaithful(p, g, y, ok) ==                                               \* (H)
-  CASE cfg.hookKind = "gy"   -> [p |-> p, y |-> y, g |-> g] \in evalOf
-    [] cfg.hookKind = "g"    -> y = None /\ \E e \in evalOf : e.p = p /\ e.g = g
+  CASE cfg.hookKind = "gy"   -> Get(evalOf, p, NoEval) = [y |-> y, g |-> g]
+    [] cfg.hookKind = "g"    -> y = None /\ g # -1 /\ Get(evalOf, p, NoEval).g = g
     [] cfg.hookKind = "args" -> ok
     [] OTHER -> FALSE
 HookG(p, g, y, ok) == Live /\ cfg.hasHook /\ HookFaithful(p, g, y, ok)
@@ -89,21 +94,21 @@ Justified(r) ==
   \/ CapPossiblyReached /\ (cfg.fixed => r.nearMin)
   \/ ~cfg.fixed /\ r.stopOK /\ (cfg.sc => r.nearMin)
 (* feasible: the caller's re-evaluation accepts p and the callback's latest answer at p was not "violated" *)
-Feasible(r) == cfg.hasCons => (r.consOK /\ [p |-> r.p, res |-> FALSE] \notin consAt)
+Feasible(r) == cfg.hasCons => (r.consOK /\ Get(consAt, r.p, 0) # 2)
 ReturnClauses(r) == [running |-> st = "running", start |-> r.startOK, cons |-> Feasible(r), justified |-> Justified(r)]
 ReturnG(r) == st = "running" /\ (r.err \/ (r.startOK /\ Feasible(r) /\ Justified(r)))   \* (R), (E)
 
 (* ----------------------------- effects -------------------------------- *)
-BeginE(c) == /\ st' = "running" /\ cfg' = c /\ evalOf' = {} /\ consAt' = {} /\ nEvals' = 0 /\ nHooks' = 0
+BeginE(c) == /\ st' = "running" /\ cfg' = c /\ evalOf' = <<>> /\ consAt' = <<>> /\ nEvals' = 0 /\ nHooks' = 0
              /\ hookStopped' = FALSE /\ ret' = NoRet
-ConstraintE(p, res) == /\ consAt' = {e \in consAt : e.p # p} \cup {[p |-> p, res |-> res]}
+ConstraintE(p, res) == /\ consAt' = Put(consAt, p, IF res THEN 1 ELSE 2, 0)
                        /\ UNCHANGED <<st, cfg, evalOf, nEvals, nHooks, hookStopped, ret>>
-EvalE(p, y, g) == /\ evalOf' = {e \in evalOf : e.p # p} \cup {[p |-> p, y |-> y, g |-> g]}
+EvalE(p, y, g) == /\ evalOf' = Put(evalOf, p, [y |-> y, g |-> g], NoEval)
                   /\ nEvals' = nEvals + 1
                   /\ UNCHANGED <<st, cfg, consAt, nHooks, hookStopped, ret>>
 HookE(stop) == /\ nHooks' = nHooks + 1 /\ hookStopped' = stop
                /\ UNCHANGED <<st, cfg, evalOf, consAt, nEvals, ret>>
-ReturnE(r) == /\ st' = "returned" /\ ret' = r /\ evalOf' = {} /\ consAt' = {}
+ReturnE(r) == /\ st' = "returned" /\ ret' = r /\ evalOf' = <<>> /\ consAt' = <<>>
               /\ UNCHANGED <<cfg, nEvals, nHooks, hookStopped>>
 
 (* ----------------------------- actions -------------------------------- *)
